@@ -374,6 +374,9 @@ macro_rules! ensure {
 /// Per-case context: what the case turned out to be.
 #[derive(Default)]
 pub struct Ctx {
+    /// set when replaying a file written before the generators of C03, C13, C17 and C20 were extended (no "layout" key):
+    /// those checks then decode the entropy exactly as they did when the file was written
+    pub legacy_layout: bool,
     /// the non-triviality rule of the property held for what actually happened
     pub nontrivial: bool,
     /// class labels for the histogram
@@ -761,6 +764,7 @@ pub fn write_replay(check: &dyn Check, tier: &str, seed: u64, f: &Failure, data:
         "tier": tier,
         "seed": seed,
         "entropy": hex(data),
+        "layout": 2,
         "oracle": f.oracle,
         "tag": f.tag,
         "message": f.message,
@@ -784,6 +788,7 @@ pub fn replay_file(check: &dyn Check, path: &str) -> Result<(ReplayOutcome, Valu
     let mut ctx = Ctx {
         want_desc: true,
         strict: true,
+        legacy_layout: v.get("layout").is_none(),
         ..Default::default()
     };
     let (r, _) = run_one(check, &data, &mut ctx);
